@@ -3,7 +3,7 @@
    every operation as a list of integers (compared exactly with the
    implementation's state). Model file. *)
 From Coq Require Import QArith Qminmax List Bool Arith ZArith.
-From WSI Require Import Vqip Pow Enc Tank Arc QTank Distrib Kinds TimeArea Leak Boundary Demand Wtw Net.
+From WSI Require Import Vqip Pow Enc Tank Arc QTank Distrib Kinds TimeArea Leak Boundary Demand Wtw LandV Net.
 Import ListNotations.
 Open Scope Q_scope.
 
@@ -375,6 +375,30 @@ Fixpoint run_fwtw (maxiter : nat) (f : nfwtw) (ops : list fop) : list Z :=
       match fwtw_step maxiter f o with
       | None => [(-999)%Z]
       | Some (f', out) => out ++ enc_fwtw f' ++ run_fwtw maxiter f' r
+      end
+  end.
+
+(* ---------------- Land with impervious / pervious surfaces (LandV.v) ---------------- *)
+Inductive lop := LRun (rain et0 T : Q) (tn : vec) | LFlood (v : vqip) | LEnd (T : Q).
+Definition nland := land (nb * nb).
+Definition enc_land (l : nland) : list Z :=
+  flat_map (fun sf => enc_tank (sf_tank sf)) (ld_surfs _ l) ++ enc_tank (ld_sr _ l) ++ enc_tank (ld_ssr _ l) ++ enc_tank (ld_perc _ l)
+  ++ ev (ld_in _ l) ++ ev (ld_out _ l) ++ enc_star (ld_outs _ l).
+Definition land_step (maxiter : nat) (l : nland) (o : lop) : option (nland * list Z) :=
+  match o with
+  | LRun rain et0 T tn => match ld_run _ nbport maxiter l rain et0 T tn with None => None | Some l' => Some (l', []) end
+  | LFlood v => let '(l', r) := ld_push_set_sewer _ l v in Some (l', ev r)
+  | LEnd T =>
+      let l1 := ld_end _ l T in
+      Some (mkLD _ (ld_surfs _ l1) (ld_sr _ l1) (ld_ssr _ l1) (ld_perc _ l1) (ld_in _ l1) (ld_out _ l1) (end_star (ld_outs _ l1)), [])
+  end.
+Fixpoint run_land (maxiter : nat) (l : nland) (ops : list lop) : list Z :=
+  match ops with
+  | [] => []
+  | o :: r =>
+      match land_step maxiter l o with
+      | None => [(-999)%Z]
+      | Some (l', out) => out ++ enc_land l' ++ run_land maxiter l' r
       end
   end.
 
